@@ -1784,13 +1784,30 @@ def dump_programs(tag, programs, nb=12):
     return ws, dumps, outs, ok, err
 
 
+class _Merged:
+    """sum of several TLC results"""
+    def __init__(self):
+        self.states = 0
+        self.distinct = 0
+        self.wall = 0.0
+        self.cmd = ""
+
+    def add(self, r):
+        self.states += r.states
+        self.distinct += r.distinct
+        self.wall += r.wall
+        self.cmd = r.cmd
+
+
+CHUNK = 5000
+
+
 def bisim_check(tag, pairs, workers=10, timeout=3000):
-    """pairs: list of (program, dump, program json override or None).  Runs TLC on Bisim.tla.
-    Returns (tlc result, bad list, badmap list, seen ids)."""
+    """pairs: list of (program, dump, program json override or None).  Runs TLC on Bisim.tla (in
+    chunks of at most CHUNK pairs).  Returns (tlc result, bad list, badmap list, seen ids)."""
     from common import run_tlc, BUILD
     d = os.path.join(BUILD, tag)
     os.makedirs(d, exist_ok=True)
-    pj = os.path.join(d, "bisim.json")
     arr = []
     for prog, dump, override in pairs:
         j = dict(override if override is not None else prog.to_json())
@@ -1798,26 +1815,44 @@ def bisim_check(tag, pairs, workers=10, timeout=3000):
         j["nobi"] = '"bi"' not in json.dumps(j["rules"]) and '"bi"' not in json.dumps(j["env"])
         arr.append({"prog": j, "dump": {k: dump[k] for k in ("dfa_pre", "dfa", "ctx", "entry_pre", "entry",
                                                                "renumber", "switch_arms", "nfa") if k in dump}})
-    with open(pj, "w") as f:
-        json.dump(arr, f)
-    res = run_tlc("Bisim.tla", "MC_Bisim.cfg", env={"VERIF_BISIM": pj}, workers=workers, timeout=timeout,
-                  tag=tag + "_bisim", heap="10g")
-    if not res.ok:
-        raise ToolError("TLC failed on Bisim.tla (%s):\n%s" % (tag, res.error))
-    return res, res.tagged.get("BAD", []), res.tagged.get("BADMAP", []), {x["p"] for x in res.tagged.get("SEEN", [])}
+    merged = _Merged()
+    bad, badmap, seen = [], [], set()
+    for old in os.listdir(d):
+        if old.startswith("bisim") and old.endswith(".json"):
+            os.remove(os.path.join(d, old))
+    for ci in range(0, max(1, len(arr)), CHUNK):
+        pj = os.path.join(d, "bisim%d.json" % (ci // CHUNK))
+        with open(pj, "w") as f:
+            json.dump(arr[ci:ci + CHUNK], f)
+        res = run_tlc("Bisim.tla", "MC_Bisim.cfg", env={"VERIF_BISIM": pj}, workers=workers, timeout=timeout,
+                      tag="%s_bisim%d" % (tag, ci // CHUNK), heap="10g")
+        if not res.ok:
+            raise ToolError("TLC failed on Bisim.tla (%s):\n%s" % (tag, res.error))
+        merged.add(res)
+        bad += res.tagged.get("BAD", [])
+        badmap += res.tagged.get("BADMAP", [])
+        seen |= {x["p"] for x in res.tagged.get("SEEN", [])}
+    return merged, bad, badmap, seen
 
 
 def stages_check(tag, workers=10, timeout=3000):
     """Thompson construction (exact NFA) and subset construction (product with NFA state sets) on
-    the same pairs file bisim_check wrote.  Returns (tlc, bad thompson ids, bad subset list)."""
+    the pairs files bisim_check wrote.  Returns (tlc, bad thompson ids, bad subset list, n)."""
     from common import run_tlc, BUILD
-    pj = os.path.join(BUILD, tag, "bisim.json")
-    res = run_tlc("Stages.tla", "MC_Stages.cfg", env={"VERIF_BISIM": pj}, workers=workers, timeout=timeout,
-                  tag=tag + "_stages", heap="10g")
-    if not res.ok:
-        raise ToolError("TLC failed on Stages.tla (%s):\n%s" % (tag, res.error))
-    bad_th = [x["p"] for x in res.tagged.get("STAGE", []) if not x["thompson"]]
-    return res, bad_th, res.tagged.get("BADSUBSET", []), len(res.tagged.get("STAGE", []))
+    d = os.path.join(BUILD, tag)
+    merged = _Merged()
+    bad_th, bad_sub, n = [], [], 0
+    files = sorted(f for f in os.listdir(d) if f.startswith("bisim") and f.endswith(".json"))
+    for k, fn in enumerate(files):
+        res = run_tlc("Stages.tla", "MC_Stages.cfg", env={"VERIF_BISIM": os.path.join(d, fn)}, workers=workers,
+                      timeout=timeout, tag="%s_stages%d" % (tag, k), heap="10g")
+        if not res.ok:
+            raise ToolError("TLC failed on Stages.tla (%s):\n%s" % (tag, res.error))
+        merged.add(res)
+        bad_th += [x["p"] for x in res.tagged.get("STAGE", []) if not x["thompson"]]
+        bad_sub += res.tagged.get("BADSUBSET", [])
+        n += len(res.tagged.get("STAGE", []))
+    return merged, bad_th, bad_sub, n
 
 
 ATOM_TXT = {"a": "'a'", "b": "'b'", "K": "['a'-'c']", "_": "_", "S": '"ab"', "D": "$", "B": "$$ascii_digit"}
@@ -2217,14 +2252,14 @@ def check_C02(tier, seed):
     trees = [t for t in fre_trees(2) if not nullable(t, {}) and classes_ok(t, {})]
     if tier == "thorough":
         t3 = [t for t in fre_trees(3) if not nullable(t, {}) and classes_ok(t, {})]
-        trees = trees + rnd.sample(t3, min(len(t3), 20000))
+        trees = trees + rnd.sample(t3, min(len(t3), 6000))
     progs = []
     for i, t in enumerate(trees):
         progs.append(Program(i + 1, [("Init", [F.simple_rule(t)])], sigma=(97, 98, 99, 120), k=4))
     # larger random ones: overlapping ranges, `_` mixed with ranges and literals, nested repetition
-    big = F.random_general(seed, sizes(tier, 150, 3000), 200000, k=3, nsets=(1, 1, 2), nrules=(1, 2, 3),
+    big = F.random_general(seed, sizes(tier, 150, 1200), 200000, k=3, nsets=(1, 1, 2), nrules=(1, 2, 3),
                            depth=4, p_ctx=0.15, p_eoi=0.15, p_var=0.3, menu_sizes=(1,))
-    classes = class_family(seed, sizes(tier, 120, 1500), 300000)
+    classes = class_family(seed, sizes(tier, 120, 600), 300000)
     # two rules whose leading ranges overlap in every possible way (the subset construction
     # merges their range transitions; the later rule must not disturb the earlier one)
     from progs import set_, chr_, cat
